@@ -76,7 +76,7 @@ def run_case(cs):
             n, m = len(cols[0]['xs']), len(cols[0]['nxs'])
             f = pnc.PseudoNetCDFFile()
             f.createDimension('t', 2)
-            f.createDimension('z', n)
+            f.createDimension('z', n).setunlimited(bool(cs.get('zunlim')))
             f.createDimension('x', 2)
             zc = f.createVariable('zc', 'd', ('t', 'z', 'x'))
             v = f.createVariable('D', 'd', ('t', 'z', 'x'))
@@ -99,6 +99,11 @@ def run_case(cs):
                 tr['cols'].append(c)
             tr['shape_ok'] = list(g.variables['D'].shape) == [2, m, 2] and \
                 len(g.dimensions['z']) == m
+            # surviving dimensions keep their unlimited flag (C01)
+            tr['flags_ok'] = bool(
+                g.dimensions['z'].isunlimited() == bool(cs.get('zunlim')) and
+                not g.dimensions['t'].isunlimited() and
+                not g.dimensions['x'].isunlimited())
         elif cs['kind'] == 'sig':
             from PseudoNetCDF.cmaqfiles import ioapi_base
             nl = len(cs['F']) - 1
@@ -126,6 +131,31 @@ def run_case(cs):
         tr['exc'] = '%s: %s' % (type(ex).__name__, str(ex)[:80])
         tr['got'] = []
     return tr
+
+
+def run_nd_structure(out, rnd, tier):
+    """C01 on interpDimension with N-D coordinates: the result is well-formed
+    and the interpolated dimension keeps its unlimited flag."""
+    todo = []
+    for i in range(60 if tier == 'quick' else 600):
+        n = rnd.randint(2, 4)
+        m = rnd.randint(1, 4)
+        cols = []
+        for q in range(4):
+            xs = sorted(rnd.sample(range(0, 12), n))
+            cols.append({'xs': xs, 'nxs': [rnd.randint(0, 12)
+                                           for _ in range(m)],
+                         'd': [rnd.randint(-20, 60) for _ in xs]})
+        todo.append({'kind': 'appnd', 'ex': rnd.random() < 0.5, 'cols': cols,
+                     'zunlim': rnd.random() < 0.7, 'tid': 800000 + i})
+    res = run_cases(run_case, todo, timeout=60, per_child=50, chunksize=5)
+    for c, t in zip(todo, res):
+        if '_crash' in t or '_hang' in t:
+            raise Machinery('interp case failed: %r %r' % (c, t))
+    out.cov['evaluations'] += len(res)
+    verdicts = validate_traces('Interp_Trace', res, out, shard=1500,
+                               label='C01-interp-nd')
+    settle(out, res, verdicts, None)
 
 
 def run(tier):
@@ -180,7 +210,8 @@ def run(tier):
                 col['nxs'] = cols[-1]['nxs']
             col['d'] = [rnd.randint(-20, 60) for _ in col['xs']]
             cols.append(col)
-        apps.append({'kind': 'appnd', 'ex': gk[2], 'cols': cols})
+        apps.append({'kind': 'appnd', 'ex': gk[2], 'cols': cols,
+                     'zunlim': rnd.random() < 0.5})
     for c in [c for c in cases if c['kind'] == 'c']:
         if rnd.random() < (0.5 if tier == 'quick' else 1.0):
             apps.append({'kind': 'sig', 'F': c['F'], 'T': c['T'],
